@@ -54,6 +54,34 @@ const GENERIC_TAIL: &str = r#"
 pub enum GE<T, U> { Unit, New(T), #[darling(skip)] Skipped(Option<U>), Named { x: T } }
 fn need_meta<X: darling::FromMeta>() {}
 
+// a skipped member of a type without `Default` takes its value from the container default
+#[derive(Debug)]
+pub struct NoDefault(u8);
+#[derive(Debug, darling::FromMeta)]
+#[darling(default)]
+pub struct SkipFromContainer { #[darling(skip)] pub a: NoDefault, pub b: u32 }
+impl Default for SkipFromContainer { fn default() -> Self { SkipFromContainer { a: NoDefault(1), b: 2 } } }
+#[derive(Debug, darling::FromField)]
+#[darling(attributes(a), default = mk_sf)]
+pub struct SkipFromFn { #[darling(skip)] pub a: NoDefault, #[darling(skip)] pub data: NoDefault, pub b: u32 }
+fn mk_sf() -> SkipFromFn { SkipFromFn { a: NoDefault(1), data: NoDefault(2), b: 3 } }
+
+// accepted option combinations, in every textual order
+#[derive(Debug, Default, darling::FromMeta)]
+pub struct Flat { #[darling(default)] pub p: u32 }
+#[derive(Debug, darling::FromMeta)]
+pub struct Orders {
+    #[darling(multiple = false, flatten)] pub a: Flat,
+    #[darling(skip = false, default, rename = "bb", map = ident_u32)] pub b: u32,
+    #[darling(default, multiple, with = |m| <u32 as darling::FromMeta>::from_meta(m), and_then = ok_u32)] pub c: Vec<u32>,
+    #[darling(skip, default = seven)] pub d: u32,
+}
+#[derive(Debug, darling::FromMeta)]
+pub struct Orders2 { #[darling(flatten, multiple = false, skip = false, default)] pub a: Flat, #[darling(rename = "x", default = seven, skip = false)] pub b: u32 }
+fn ident_u32(v: u32) -> u32 { v }
+fn ok_u32(v: u32) -> darling::Result<u32> { Ok(v) }
+fn seven() -> u32 { 7 }
+
 // non-capturing closures in every position that accepts one
 #[derive(Debug, darling::FromMeta)]
 #[darling(from_word = || Ok(Closures { a: 1, b: 2 }), from_none = || None)]
@@ -66,6 +94,11 @@ fn main() {
     g_meta::instantiate(); g_di::instantiate(); g_field::instantiate(); g_variant::instantiate(); g_tp::instantiate(); g_attrs::instantiate();
     need_meta::<GE<u32, Opaque>>();
     need_meta::<Closures>();
+    need_meta::<SkipFromContainer>();
+    need_meta::<Orders>();
+    need_meta::<Orders2>();
+    fn need_field<X: darling::FromField>() {}
+    need_field::<SkipFromFn>();
     need_meta::<EClosures>();
 }
 "#;
